@@ -322,12 +322,19 @@ def histH : Handler := fun j => do
   let runs ← arrField j "runs"
   let mut s : St := {}
   let mut out : List Json := []
+  -- seeded histories: one stream of draws shared by all runs (the recorder's own generator)
+  let mut stream : Option (List Q) := Option.none
+  match optField j "stream" with
+  | some sj => stream := some (← mapM' parseQ (← asArr sj))
+  | Option.none => pure ()
   for r in runs do
     let kind ← strField r "run"
     let script ← arrField r "script"
     let prog := toProg sites 6 [] script
     let enabled ← boolField r "enabled"
-    let draws ← mapM' parseQ ((asArr (fieldD r "draws" (Json.arr #[]))).toOption.getD [])
+    let draws ← match stream with
+      | some st => pure st
+      | Option.none => mapM' parseQ ((asArr (fieldD r "draws" (Json.arr #[]))).toOption.getD [])
     let clock ← mapM' asNat ((asArr (fieldD r "clock" (Json.arr #[]))).toOption.getD [])
     let s0 : St := { s with enabled := enabled, draws := draws, drawn := 0, clock := clock, log := [], journal := [] }
     let extractor ← match fieldD r "extractor" Json.null with
@@ -352,6 +359,7 @@ def histH : Handler := fun j => do
                            ("saved", saved), ("idle", jIdle s1), ("drawn", jNat s1.drawn),
                            ("twinEnd", jEnd twin.2), ("twinJournal", jJournal twin.1)]]
       s := s1
+      if stream.isSome then stream := some s1.draws
     else
       let id ← natField r "rec"
       let (s1, res) := runPlay aliasOracle cfg s0 id prog
@@ -364,6 +372,14 @@ def histH : Handler := fun j => do
       s := s1
   .ok (jArr out)
 
-def handlers : List (String × Handler) := [("rec.hist", histH)]
+/-- {"m":"c17.s3","ratio":[n,d]|null,"draw":[n,d]} -> stored? -/
+def s3SampleH : Handler := fun j => do
+  let ratio ← match fieldD j "ratio" Json.null with
+    | .null => pure Option.none
+    | r => do pure (some (← parseQ r))
+  let d ← parseQ (← field j "draw")
+  .ok (Json.bool (s3ShouldSample ratio d))
+
+def handlers : List (String × Handler) := [("rec.hist", histH), ("c17.s3", s3SampleH)]
 
 end Drive.Recorder
